@@ -26,13 +26,13 @@ from .. import families as F
 
 LEVEL = "model_checking"
 RULE = (
-    "(a) rewrite rules {string <-> object <-> one-element-list transition, always <-> on[''], cond <-> guard, single action "
+    "(a) rewrite rules {string <-> object <-> one-element-list transition, always <-> on[''] (also split over both keys on one state), cond <-> guard, single action "
     "<-> list <-> object, numeric <-> string delay key, drop 'initial' with a single child, target respelled as every "
     "spelling an independent reference resolver maps to the same state (sibling key, dotted path, leading-dot relative, "
     "#machineId.path, #customId)} applied at every applicable site of every corpus machine, of TREE universal machines and of COLLIDE machines (the keys x, y repeated at every level, so a spelling looked up in the wrong scope finds the wrong state instead of failing), "
     "singly / in pairs / all at once; oracle: deep fingerprint + trace equivalence (all-true and all-false guards); "
     "(b) every JSON position of every corpus config x every wrong-typed value from a 9-value menu (types the schema accepts "
-    "at that key are skipped), driven through create_machine, start, every event to depth 2 and can(); "
+    "at that key are skipped), driven through create_machine, start, every event to depth 2 and can(); plus two-point corruptions of every compound state ('initial' deleted AND states / on / after / invoke wrong-typed); "
     "(c) every pair of distinct states of every TREE universal machine and COLLIDE machine given the same custom id (siblings, different branches, a state and its descendant): must be rejected with an XStateMachineError; "
     "distinct_nontrivial = distinct (machine, rewrite set) + distinct (machine, position, value) + distinct (machine, state pair) cases"
 )
@@ -127,6 +127,15 @@ def rewrites(cfg) -> List[Tuple[str, Any]]:
                 d = get_at(c, sp)
                 d.setdefault("on", {})[""] = d.pop("always")
             out.append((f"{spath}: always -> on['']", f))
+        if isinstance(st.get("always"), list) and len(st["always"]) >= 2 and "" not in (st.get("on") or {}):
+            # both spellings on ONE state: the first candidate under on[''], the rest under always - the transient bucket is
+            # the on[''] candidates followed by the always candidates
+            def f3(c, spath=spath):
+                d = get_at(c, spath)
+                alw = d.pop("always")
+                d.setdefault("on", {})[""] = alw[0]
+                d["always"] = alw[1:]
+            out.append((f"{spath}: always -> on[''] (first candidate) + always (rest)", f3))
         if "" in (st.get("on") or {}) and "always" not in st:
             def f2(c, sp=spath):
                 d = get_at(c, sp)
@@ -528,6 +537,33 @@ def run_corruptions(name: str, cfg, res):
                     replay=dict(kind="corrupt", machine=name, path=list(path), value=w)))
 
 
+def run_pair_corruptions(name: str, cfg, res):
+    """Two-point corruptions around a key the parser reads BEFORE it validates its neighbour: in every compound state the
+    'initial' key is deleted and 'states' replaced by each wrong-typed value (the initial child is then inferred from
+    'states'); likewise 'on' / 'after' / 'invoke' wrong-typed with 'initial' deleted."""
+    for spath, st in walk_states(cfg):
+        if not isinstance(st.get("states"), dict) or not st["states"]:
+            continue
+        for key in ("states", "on", "after", "invoke"):
+            for w in WRONG:
+                if isinstance(w, dict) or (key == "invoke" and isinstance(w, (str, list))) or (w is None and key != "states"):
+                    continue
+                c2 = copy.deepcopy(cfg)
+                node = get_at(c2, spath)
+                node.pop("initial", None)
+                node[key] = copy.deepcopy(w)
+                res["evaluations"] += 1
+                res["executions"] += 1
+                res["distinct_count"] += 1
+                exc, _ = drive(c2)
+                where = "/".join(str(p) for p in spath) or "<root>"
+                if exc is not None and not isinstance(exc, XStateMachineError):
+                    res["violations"].append(dict(
+                        signature=f"C18|wrong-type-raw-{type(exc).__name__}|key={key}+initial-omitted", clause="raw-exception",
+                        what=f"machine {name}: state {where} with 'initial' omitted and {key} = {w!r} raises raw {type(exc).__name__}: {exc}",
+                        size=len(spath), replay=dict(kind="pair", machine=name, path=list(spath), key=key, value=w)))
+
+
 def collide_machines(tier: str) -> Dict[str, Dict[str, Any]]:
     """Machines whose state keys repeat at every level (x / y under x / y under x ...): a spelling that is looked up in the
     wrong scope finds a state - the wrong one - instead of failing.  Every state has one event per target state, written
@@ -679,6 +715,7 @@ def run_unit(unit):
         res["samples"].append(dict(machine=payload if isinstance(payload, str) else F.tree_str(payload), duplicate_id_pairs=res["evaluations"]))
     elif kind == "corrupt":
         run_corruptions(payload, C.corpus()[payload], res)
+        run_pair_corruptions(payload, C.corpus()[payload], res)
         res["samples"].append(dict(machine=payload, corruptions=res["evaluations"]))
     else:
         # the config object itself
@@ -710,6 +747,14 @@ def replay(payload):
         if exc is not None and not isinstance(exc, XStateMachineError):
             return [dict(signature="C18|raw", what=repr(exc))]
         return []
+    if payload["kind"] == "pair":
+        cfg = copy.deepcopy(C.corpus()[payload["machine"]])
+        node = get_at(cfg, payload["path"])
+        node.pop("initial", None)
+        node[payload["key"]] = payload["value"]
+        exc, _ = drive(cfg)
+        print("  outcome:", repr(exc))
+        return [dict(signature="C18|raw", what=repr(exc))] if exc is not None and not isinstance(exc, XStateMachineError) else []
     if payload["kind"] == "dupid":
         cfg = copy.deepcopy(machine_by_name(payload["machine"]))
         get_at(cfg, payload["a"])["id"] = "dup"
